@@ -5,6 +5,7 @@ import (
 	"encoding/hex"
 	"strings"
 	"verif/harness/lib/mediah"
+	"verif/harness/lib/rtppack"
 	"testing"
 
 	"github.com/cnotch/ipchub/av/format/rtp"
@@ -181,5 +182,32 @@ func TestWitnessInbandParameterSetPoisoning(t *testing.T) {
 		c.Hostile = []pkt{mkPkt(rtp.ChannelVideo, mediaPacket(96, true, 50, 90000, w.pl), w.name)}
 		c.ProbeTS = 90000 + 2*probeStep
 		judge(t, "witness-parameter-set-poisoning", c)
+	}
+}
+
+// Converter loops: the FLV muxer goroutine. The SDP carries no sprop parameter
+// sets and the first packet that yields a frame is an AAC packet (valid, or a
+// hostile one that still yields a frame): the FLV muxer builds its sequence
+// headers with the first frame, the AVC configuration record indexes into the
+// SPS that is not there yet and panics. The goroutine used to recover once and
+// exit: no FLV tag ever, for anything sent later. Now that frame is dropped and
+// the sequence headers are built once the in-band parameter sets have arrived.
+func TestWitnessFlvMuxerSurvivesEarlyAudio(t *testing.T) {
+	for _, codec := range []esgen.Codec{esgen.H264, esgen.H265} {
+		evid.Eval(1)
+		c := &caseSpec{Codec: codec.String(), Audio: true, CacheGop: true, NoSprop: true, Class: "witness: audio frame ahead of the in-band parameter sets"}
+		c.Prefix = plainPrefix(codec, true, 2, 90000)
+		c.Pos = 0
+		aac := rtppack.AacHbr([][]byte{{0x21, 0x10, 0x04, 0x60, 0x8c, 0x1c}})
+		c.Hostile = []pkt{
+			mkPkt(rtp.ChannelAudio, mediaPacket(97, true, 10, 44100, aac[:len(aac)-2]), "AAC packet cut by two bytes"),
+			mkPkt(rtp.ChannelAudio, mediaPacket(97, true, 11, 44100, aac), "well-formed AAC packet"),
+		}
+		c.ProbeTS = 90000 + 2*probeStep
+		c.SettleMs = 300 // let the FLV muxer meet the audio frame before the parameter sets arrive
+		res := runCase(c, true)
+		if f := res.failure(); f != "" {
+			evid.Violation(t, "witness-flv-muxer/"+f, map[string]any{"case": c, "result": res}, "%s: %s", f, describe(res))
+		}
 	}
 }
